@@ -141,7 +141,7 @@ func C04(sp *spec.Spec, ex *rt.Exchange) *Verdict {
 		}
 		names, set := ruleNames(viol)
 		if ex.ClientOut.Err == nil {
-			v.add(mkKey("accepted", "invalid-result-accepted-by-client", fmt.Sprintf("%s:%s:%s", siteClass(site), loc, kind), siteTags(sp, m, m.Result, site, false)),
+			v.add(mkKey("accepted", "invalid-result-accepted-by-client", fmt.Sprintf("%s:%s:%s", siteClass(site), loc, kind), mergeTags(siteTags(sp, m, m.Result, site, false), ExplainResult(sp, m, c.Outcome.Result))),
 				"client returned a result violating %v (%s) instead of a validation error", names, site)
 			return v
 		}
@@ -159,6 +159,19 @@ func C04(sp *spec.Spec, ex *rt.Exchange) *Verdict {
 		if ex.Panic != "" {
 			v.add("panic:"+panicSite(ex.Panic)+":"+c.Class, "panic on a malformed request: %s", firstLine(ex.Panic))
 			return v
+		}
+		if c.Sent != nil && m.Payload != nil {
+			// the malformed request is derived from a base payload that must itself satisfy the design
+			var bviol []Violation
+			var bund []string
+			base := c.Sent
+			Validate(sp, m.Payload.Type, m.Payload.Val, base, "", &bviol, &bund, 0)
+			for _, vi := range bviol {
+				if !(vi.Rule == "required" && strings.Count(vi.Path, ".") == 1) { // the deliberately removed top-level parameter
+					v.Inconclusive = "case generator produced a base payload that does not satisfy the design"
+					return v
+				}
+			}
 		}
 		if ex.StubIn != nil {
 			v.add(mkKey("leaked", "malformed-request-reached-stub", c.Class, siteTags(sp, m, m.Payload, "", true)), "malformed request (%s) reached user code with payload %v", c.Class, ex.StubIn.Payload)
@@ -206,6 +219,16 @@ func C04(sp *spec.Spec, ex *rt.Exchange) *Verdict {
 			return v
 		}
 	}
+	if mode == "client" {
+		for _, vi := range viol {
+			if vi.Rule == "required" {
+				// a Go payload struct cannot leave a required non-pointer attribute out: the tree is not what
+				// the generated client sent (missing-attribute probes are hand-encoded only)
+				v.Inconclusive = "missing required attribute is not representable through the generated client"
+				return v
+			}
+		}
+	}
 	if ex.WireResp == nil {
 		if ex.ClientOut != nil && ex.ClientOut.Err != nil && ex.WireReq == nil {
 			v.Inconclusive = "client failed before sending: " + trunc(ex.ClientOut.Err.Message, 100)
@@ -236,8 +259,12 @@ func C04(sp *spec.Spec, ex *rt.Exchange) *Verdict {
 		return v
 	}
 	if ex.StubIn != nil {
+		var where []string
+		for _, vi := range viol {
+			where = append(where, vi.Rule+"@"+vi.Path)
+		}
 		v.add(mkKey("leaked", "invalid-request-reached-stub", fmt.Sprintf("%s:%s:%s:%s", mode, siteClass(site), loc, kind), stags),
-			"request violating %v (%s) reached user code; stub saw %v", names, site, ex.StubIn.Payload)
+			"request violating %v %v (%s) reached user code; stub saw %v", names, where, site, ex.StubIn.Payload)
 		return v
 	}
 	if ex.WireResp.Status < 400 || ex.WireResp.Status > 499 {
@@ -361,7 +388,7 @@ var explains = map[string]map[string]bool{
 	"schema:request-body-documented-required":       {"leaked": true},
 	"schema:map-length-not-documented":              {"rejected:invalid_length": true},
 	"schema:bytes-length-on-base64-text":            {"rejected:invalid_length": true, "leaked": true},
-	"header-array-multi":                            {"refused:*": true, "mismatch:header-array": true},
+	"header-array-multi":                            {"refused:*": true, "accepted": true, "mismatch:header-array": true},
 }
 
 var tagOrder = []string{"schema:map-key-elem-validation-not-documented", "schema:null-body", "schema:request-body-documented-required", "schema:map-length-not-documented", "schema:bytes-length-on-base64-text", "recursive-result-type", "tagged-response-header-absent", "required-object-outside-view", "both-exclusive-bounds", "required-cookie", "body-attr-absent", "path-value-with-slash", "header-array-multi", "absent-collection-minlen"}
